@@ -20,6 +20,7 @@ import (
 
 	"verif/sim/fam"
 	"verif/sim/simdrv"
+	"verif/sim/simrt"
 )
 
 // Dialector is gorm.io/driver/sqlite's dialector with SavePoint/RollbackTo that
@@ -57,7 +58,7 @@ type Options struct {
 	File                     bool // WAL file database (multi-task runs) instead of shared-cache memory
 	NoFixture                bool
 	// WrapPool, when set, receives the *sql.DB and returns the ConnPool gorm is given.
-	WrapPool func(*sql.DB) gorm.ConnPool
+	WrapPool func(*sql.DB, *simdrv.Sim) gorm.ConnPool
 	Namer    schema.Namer
 	Logger   logger.Interface
 }
@@ -156,11 +157,20 @@ func Open(o Options) (*Env, error) {
 		}
 	}
 	e.Drv = simdrv.New(dsn)
+	// single-task default: the goroutine that opens the environment is task 0,
+	// every other goroutine (database/sql watchers, gorm's closers) is asynchronous
+	owner := simrt.Goid()
+	e.Drv.Cur = func() int {
+		if simrt.Goid() == owner {
+			return 0
+		}
+		return -1
+	}
 	e.Drv.Passive = true
 	e.Pool = sql.OpenDB(e.Drv.Connector())
 	var pool gorm.ConnPool = e.Pool
 	if o.WrapPool != nil {
-		pool = o.WrapPool(e.Pool)
+		pool = o.WrapPool(e.Pool, e.Drv)
 	}
 	lg := o.Logger
 	if lg == nil {
